@@ -70,14 +70,14 @@ def registry_replay(ctx):
 
 
 def run_family(ctx, module, build, cats, cfgfn, modes_quick, modes_thorough, devs, assumptions, rule, describe=None, cfgs=(None,),
-               cov_mode="seq2", registry=False):
+               cov_mode="seq2", registry=False, extra_real=()):
     if ctx.replay:
         return progcheck.replay_file(ctx, ctx.replay)
     thorough = ctx.tier == "thorough"
     rep = progcheck.Replay(ctx, cats)
     nonvacuous(ctx, module, devs, cfgfn)
     total = 0
-    real_items = []
+    real_items = list(extra_real)
     for mode, k in (modes_thorough if thorough else modes_quick):
         scs, r = progcheck.tlc_scenarios(ctx, module, cfgfn(mode), "%s_%s" % (ctx.pid.lower(), mode), coverage=(mode == cov_mode))
         total += len(scs)
